@@ -438,7 +438,7 @@ class CallMixin:
     def length(self, v):
         if isinstance(v, (list, tuple, str, dict, set, frozenset)):
             return len(v)
-        if isinstance(v, (AList, SliceView)):
+        if isinstance(v, (AList, SliceView)) or type(v).__name__ == "ConcatView":
             return v.n
         if isinstance(v, SetVal):
             raise OutsideSubset("len of symbolic set")
